@@ -203,6 +203,18 @@ def check_files(files, backend, nexp, label, viols, ids_expected):
     return spec, elem, nspec
 
 
+# further Enzo files that list the non-Grackle species once each, in slot order: template -> pattern of one list entry
+ENZO_LISTS = ["hydro_rk/Grid_ReturnHydroRKPointers.C.j2", "hydro_rk/Grid_ReturnOldHydroRKPointers.C.j2", "hydro_rk/Grid_TurbulenceInitializeGrid.C.j2",
+              "hydro_rk/Grid_CollapseMHD3DInitializeGrid.C.j2", "hydro_rk/TurbulenceInitialize.C.j2", "hydro_rk/CollapseMHD3DInitialize.C.j2"]
+ENZO_LIST_PATTERNS = {
+    "hydro_rk/Grid_ReturnHydroRKPointers.C": [r"Prim\[nfield\+\+\]\s*=\s*BaryonField\[(\S+?)Num\];"],
+    "hydro_rk/Grid_ReturnOldHydroRKPointers.C": [r"Prim\[nfield\+\+\]\s*=\s*OldBaryonField\[(\S+?)Num\];"],
+    "hydro_rk/Grid_TurbulenceInitializeGrid.C": [r"FieldType\[(\S+?)Num\s*=\s*NumberOfBaryonFields\+\+\]\s*=\s*(\S+?)Density;"],
+    "hydro_rk/Grid_CollapseMHD3DInitializeGrid.C": [r"FieldType\[(\S+?)Num\s*=\s*NumberOfBaryonFields\+\+\]\s*=\s*(\S+?)Density;"],
+    "hydro_rk/TurbulenceInitialize.C": [r"const char \*(\S+?)Name\s*=\s*\"(\S+?)_Density\";", r"DataLabel\[count\+\+\]\s*=\s*\(char\*\)\s*(\S+?)Name;"],
+    "hydro_rk/CollapseMHD3DInitialize.C": [r"const char \*(\S+?)Name\s*=\s*\"(\S+?)_Density\";", r"DataLabel\[count\+\+\]\s*=\s*\(char\*\)\s*(\S+?)Name;"],
+}
+GRACKLE_KNOWN = {"De", "HI", "HII", "HeI", "HeII", "HeIII", "HM", "H2I", "H2II", "DI", "DII", "HDI", "Electron", "Metal", "Dust", "ExtraType0", "ExtraType1", "kdissH2I", "kphHI", "kphHeI", "kphHeII", "PhotoGamma", "GravPotential", "Phi", "DebugName", "Phi_p", "Accel0", "Accel1", "Accel2", "Accel3"}
 GRACKLE_ALIAS = {"electron": "De", "H": "HI", "H+": "HII", "He": "HeI", "He+": "HeII", "He++": "HeIII", "H-": "HM", "H2": "H2I", "H2+": "H2II", "D": "DI", "D+": "DII", "HD": "HDI"}
 ENZO_DEFINED = set(GRACKLE_ALIAS) | {"C", "C+", "O", "O+", "Si", "Si+", "Si++", "CH", "CH2", "CH3+", "C2", "CO", "HCO+", "OH", "H2O", "O2"}
 
@@ -242,6 +254,17 @@ def enzo_tables(out, net, entries, order, label, viols):
     wantu = [(f"{float(sp.charge):.1f}", v, str(sp.massnumber)) for sp, v in extra if sp.charge != 0]
     if got != wantu:
         viols.append((f"C09:enzo-electron-density", f"{label}: Grid_UpdateElectronDensity.C adds {got}, the charged non-Grackle species are {wantu} (charge, field, mass number)", None))
+    wantl = [v[:-3] for _, v in extra]
+    for rel, pats in ENZO_LIST_PATTERNS.items():
+        txt = "\n".join(re.findall(r"#ifdef USE_NAUNET(.*?)#endif", (out / rel).read_text(), re.S))
+        for pat in pats:
+            found = re.findall(pat, txt)
+            names = [(f if isinstance(f, str) else f[0]) for f in found]
+            pairs_ok = all(isinstance(f, str) or f[0] == f[1] for f in found)
+            names = [n_ for n_ in names if n_ not in GRACKLE_KNOWN]
+            if names != wantl or not pairs_ok:
+                viols.append((f"C09:enzo-list:{rel.split('/')[-1]}", f"{label}: {rel} lists {names} (pairs consistent: {pairs_ok}), the non-Grackle species in slot order are {wantl}", None))
+                break
     t = (out / "typedefs.h").read_text()
     new = [(n, int(v)) for n, v in re.findall(r"^\s*(\S+)Density\s*=\s*(\d+),\s*$", t, re.M) if int(v) >= 104]
     wantn = [a for i, a in zip(ids, order) if i not in ENZO_DEFINED]
@@ -315,9 +338,9 @@ def run_case(arg):
             out = Path(tempfile.mkdtemp(dir=scratch()))
             try:
                 with quiet():
-                    EnzoPatch("cpu").render(net, templates=["naunet_enzo.h.j2", "Grid_NaunetWrapper.C.j2", "Grid_IdentifyNaunetSpeciesFields.C.j2", "typedefs.h.j2", "hydro_rk/Grid_UpdateElectronDensity.C.j2"], path=out)
+                    EnzoPatch("cpu").render(net, templates=["naunet_enzo.h.j2", "Grid_NaunetWrapper.C.j2", "Grid_IdentifyNaunetSpeciesFields.C.j2", "typedefs.h.j2", "hydro_rk/Grid_UpdateElectronDensity.C.j2"] + ENZO_LISTS, path=out)
                 txt = (out / "naunet_enzo.h").read_text()
-                nart += 5
+                nart += 5 + len(ENZO_LISTS)
                 enzo_tables(out, net, entries, order, label, viols)
                 adef = re.findall(r"^#define\s+(A_\S+)\s+(\S+)\s*$", txt, re.M)
                 body = txt[txt.index("A_Table") :]
